@@ -63,6 +63,7 @@ struct Case {
     bool vec3 = false; int integ = 0; double acc = 1e-3; int stepCtl = 0; double h = 0.05; double t0 = 0, T = 1; bool infNorm = false;
     anasys::Spec spec; std::vector<Node> nodes; std::vector<double> varTimes; std::vector<double> varValues; std::vector<double> reports;
     int exclCrash = 0;
+    bool study2 = true; int integ2 = 0; double T2 = 0.5; uint32_t edit = 0;    // continued study: started from a copy of study 1's final State
     int N() const { return vec3 ? 3 : 1; }
 };
 
@@ -147,6 +148,8 @@ Case decode(const pbt::Tape& t) {
     c.T = std::max(0.4, std::min(2.0, g.real(0.4, 2.0)));
     { uint32_t w = g.w(); c.t0 = (w & 1) ? 2.0 * ((w >> 1) / 2147483648.0) : 0.0; }
     c.T += c.t0;
+    { pbt::Reader g2(t[0]); g2.skip(9); uint32_t w = g2.w(); c.study2 = (w & 7u) != 1; c.integ2 = ((w >> 3) & 1u) ? (int)((w >> 4) % 10) : c.integ; c.T2 = 0.3 + 0.1 * ((w >> 8) % 8); c.edit = (w >> 12) & 7u;
+      if ((c.integ2 == 5 || c.integ2 == 7) && c.acc < 1e-4) c.integ2 = c.integ; }     // (order-1 methods only at the accuracies generated for them)
     { anasys::Block b; b.pair = true; b.a = -1.0 * g.unit(); b.w = 0.5 + 3.5 * g.unit(); c.spec.blocks.push_back(b); anasys::Osc o; o.omega = 0.5 + 4.5 * g.unit(); c.spec.oscs.push_back(o);
       c.spec.z0 = {1.0, -0.5}; c.spec.q0 = {1.0}; c.spec.u0 = {0.0}; c.spec.t0 = c.t0; }
     // nodes 0..2 always exist
@@ -229,14 +232,20 @@ void runCase(const Case& c, pbt::Ctx& ctx, bool excl) {
         if (dif[k].isUsingApproximation() != c.nodes[k].approxInUse) { ctx.fail("node " + std::to_string(k) + " Differentiate(" + kindName(c.nodes[c.nodes[k].a].kind) + "): isUsingApproximation() = " + std::to_string(dif[k].isUsingApproximation()) + " but the operand " + (c.nodes[k].approxInUse ? "has no" : "has an") + " analytic derivative"); return; }
     }
 
-    std::unique_ptr<Integrator> integ = makeInteg(c.integ, sys, c.stepCtl ? c.h : 0.01);
-    integ->setAccuracy(c.acc); integ->setReturnEveryInternalStep(true); if (c.infNorm) integ->setUseInfinityNorm(true);
-    if (c.integ != 6) { if (c.stepCtl == 1) integ->setMaximumStepSize(c.h); else if (c.stepCtl == 2) integ->setFixedStepSize(c.h); }
-    const bool cp = c.integ >= 8;
-    const bool errorControlled = c.integ != 6 && c.stepCtl != 2;
-    const double hBound = (c.stepCtl != 0 && !cp) ? c.h * 1.002 : ((c.integ == 6) ? 0.01 * 1.002 : Inf);    // a bound on every internal step, when one is in force
-    TimeStepper ts(sys, *integ); ts.setReportAllSignificantStates(true);
-    try { ts.initialize(s0); } catch (const std::exception& e) { ctx.reject("initialize-failed"); if (getenv("C23_SHOW")) { std::string ks; for (auto& n : c.nodes) ks += std::string(kindName(n.kind)) + " "; fprintf(stderr, "INIT vec3=%d %s\n", (int)c.vec3, ks.c_str()); } if (ctx.wantDesc) ctx.desc << "initialize threw: " << std::string(e.what()).substr(0, 300) << "\n"; return; }
+    // per-study objects (study 0: from the initial State; study 1: a NEW integrator and TimeStepper initialized from a copy of the final State)
+    std::unique_ptr<Integrator> integ; std::unique_ptr<TimeStepper> ts; bool cp = false, errorControlled = true; double hBound = Inf, tStart = c.t0; int integKind = c.integ;
+    const double Tall = c.study2 ? c.T + c.T2 : c.T;
+    auto startStudy = [&](int kind, const State& init) -> bool {
+        integKind = kind; ts.reset(); integ = makeInteg(kind, sys, c.stepCtl ? c.h : 0.01);
+        integ->setAccuracy(c.acc); integ->setReturnEveryInternalStep(true); if (c.infNorm) integ->setUseInfinityNorm(true);
+        if (kind != 6) { if (c.stepCtl == 1) integ->setMaximumStepSize(c.h); else if (c.stepCtl == 2) integ->setFixedStepSize(c.h); }
+        cp = kind >= 8; errorControlled = kind != 6 && c.stepCtl != 2;
+        hBound = (c.stepCtl != 0 && !cp) ? c.h * 1.002 : ((kind == 6) ? (c.stepCtl ? c.h : 0.01) * 1.002 : Inf);    // a bound on every internal step, when one is in force
+        ts.reset(new TimeStepper(sys, *integ)); ts->setReportAllSignificantStates(true);
+        try { ts->initialize(init); } catch (const std::exception& e) { ctx.reject("initialize-failed"); if (getenv("C23_SHOW")) { std::string ks; for (auto& n : c.nodes) ks += std::string(kindName(n.kind)) + " "; fprintf(stderr, "INIT vec3=%d %s\n", (int)c.vec3, ks.c_str()); } if (ctx.wantDesc) ctx.desc << "initialize threw: " << std::string(e.what()).substr(0, 300) << "\n"; return false; }
+        tStart = init.getTime(); return true;
+    };
+    if (!startStudy(c.integ, s0)) return;
 
     // ---- the model
     std::vector<std::vector<Fn> > fn(nn, std::vector<Fn>(N));     // closed forms of the smooth nodes on the current segment
@@ -265,7 +274,7 @@ void runCase(const Case& c, pbt::Ctx& ctx, bool excl) {
     struct DiffState { double t; std::vector<double> f, d; bool good; }; std::vector<DiffState> dst(nn);
     std::vector<std::vector<double> > extStored(nn), extTime(nn);
     bool started = false; double tPrev = c.t0, hMaxSeen = 0, lastCommitT = c.t0; size_t nextVar = 0; long nStates = 0; double worstInt = 0;
-    const double Tspan = c.T - c.t0;
+    const double Tspan = Tall - c.t0; bool variableEdited = false;
     std::vector<std::vector<double> > val(nn, std::vector<double>(N));
 
     auto extremeOf = [&](int kind, double nv, double old) { switch (kind) { case KMax: return nv > old ? nv : old; case KMin: return nv < old ? nv : old; case KMaxAbs: return std::abs(nv) > std::abs(old) ? nv : old; default: return std::abs(nv) < std::abs(old) ? nv : old; } };
@@ -277,7 +286,7 @@ void runCase(const Case& c, pbt::Ctx& ctx, bool excl) {
         for (int k = 0; k < nn; ++k) { const T& v = M[k].getValue(s); for (int i = 0; i < N; ++i) val[k][i] = Tr<T>::get(v, i); }
         if (ctx.wantDesc && nStates < 12) { ctx.desc << "    values at t=" << pbt::str(t) << ":"; for (int k = 3; k < nn; ++k) ctx.desc << " m" << k << "=" << val[k][0]; ctx.desc << "\n"; }
         for (int k = 0; k < nn; ++k) { const Node& n = c.nodes[k];
-            if (n.staleSite && nextVar > 0 && excl && ctx.known("algebraic-measure-stale-after-variable-change")) { ctx.label("excluded:algebraic-measure-stale-after-variable-change"); continue; }
+            if (n.staleSite && (nextVar > 0 || variableEdited) && excl && ctx.known("algebraic-measure-stale-after-variable-change")) { ctx.label("excluded:algebraic-measure-stale-after-variable-change"); continue; }
             for (int i = 0; i < N; ++i) {
                 const double v = val[k][i]; std::ostringstream id; id.precision(17); id << "node " << k << " " << kindName(n.kind) << (N > 1 ? "[" + std::to_string(i) + "]" : std::string("")) << " at t=" << t << (interpolated ? " (interpolated state)" : "") << ": value " << v;
                 if (!std::isfinite(v)) { ctx.fail(id.str() + " is not finite"); return false; }
@@ -286,10 +295,10 @@ void runCase(const Case& c, pbt::Ctx& ctx, bool excl) {
                 //  integration errors, not bounded by their own closed form -- e.g. the difference of two integrals of the same integrand)
                 const bool algebraicOverIntegral = (n.kind == KPlus || n.kind == KMinus || n.kind == KScale) && n.numErr;
                 if (n.smooth && !algebraicOverIntegral) {
-                    const double e = fn[k][i].eval(t), sc = std::max(1.0, fn[k][i].bound(c.t0, c.T));
+                    const double e = fn[k][i].eval(t), sc = std::max(1.0, fn[k][i].bound(c.t0, Tall));
                     if (!n.numErr) { if (std::abs(v - e) > 1e-12 * sc) { ctx.fail(id.str() + " != closed form " + pbt::str(e)); return false; } }
                     else if (!errorControlled) {   // forced step size / SemiExplicitEuler: accuracy is not controlled; first-order quadrature bound instead
-                        Fn d1 = fn[k][i].deriv(), d2 = d1.deriv(); const double tol = 2 * hBound * Tspan * (1 + Tspan) * (d1.bound(c.t0, c.T) + d2.bound(c.t0, c.T)) + 1e-12 * sc;
+                        Fn d1 = fn[k][i].deriv(), d2 = d1.deriv(); const double tol = 2 * hBound * Tspan * (1 + Tspan) * (d1.bound(c.t0, Tall) + d2.bound(c.t0, Tall)) + 1e-12 * sc;
                         if (std::abs(v - e) > tol) { ctx.fail(id.str() + " differs from the closed-form integral " + pbt::str(e) + " by " + pbt::str(std::abs(v - e)) + " > first-order bound " + pbt::str(tol) + " for fixed step " + pbt::str(hBound)); return false; } }
                     else { double r = std::abs(v - e) / (c.acc * sc * std::max(1.0, Tspan)); worstInt = std::max(worstInt, r);
                            static const bool calib = getenv("C23_CALIB") != nullptr;
@@ -319,8 +328,8 @@ void runCase(const Case& c, pbt::Ctx& ctx, bool excl) {
                     if (std::abs(v - e) > 1e-10 * std::max(1.0, std::abs(e))) { ctx.fail(id.str() + " != documented linear interpolation of the buffered operand values at t-delay=" + pbt::str(td) + ": " + pbt::str(e)); return false; }
                     const Node& A = c.nodes[n.a];
                     if (A.smooth && !A.numErr) {    // what the statement asks for: the operand's value at t - delay
-                        if (td <= c.t0) { const double f0 = fn[n.a][i].eval(c.t0); if (std::abs(v - f0) > 1e-12 * std::max(1.0, std::abs(f0))) { ctx.fail(id.str() + " != operand's initial value " + pbt::str(f0) + " although t-delay precedes the start"); return false; } ctx.label("delay:before-start"); }
-                        else if (hBound * 1.0 < n.delay) { const double f = fn[n.a][i].eval(td), M2 = fn[n.a][i].deriv().deriv().bound(c.t0, c.T), tol = hBound * hBound / 8 * M2 * 1.01 + 1e-12 * std::max(1.0, std::abs(f));
+                        if (td <= tStart) { const double f0 = fn[n.a][i].eval(tStart); if (std::abs(v - f0) > 1e-12 * std::max(1.0, std::abs(f0))) { ctx.fail(id.str() + " != operand's initial value " + pbt::str(f0) + " although t-delay precedes the start"); return false; } ctx.label("delay:before-start"); }
+                        else if (hBound * 1.0 < n.delay) { const double f = fn[n.a][i].eval(td), M2 = fn[n.a][i].deriv().deriv().bound(c.t0, Tall), tol = hBound * hBound / 8 * M2 * 1.01 + 1e-12 * std::max(1.0, std::abs(f));
                             if (std::abs(v - f) > tol) { ctx.fail(id.str() + " differs from the operand's value at t-delay " + pbt::str(f) + " by more than the linear-interpolation bound h^2/8 max|f''| = " + pbt::str(tol)); return false; } ctx.label("delay:interpolation-bound-checked"); }
                     }
                 }
@@ -332,9 +341,9 @@ void runCase(const Case& c, pbt::Ctx& ctx, bool excl) {
                     if (std::abs(v - e) > 1e-9 * sc * std::max(1.0, 1e-3 / std::max(1e-12, std::abs(t - D.t)))) { ctx.fail(id.str() + " != documented estimate 2(f-f0)/(t-t0)-fdot0 = " + pbt::str(e) + " (f0 at the last step boundary " + pbt::str(D.t) + ")"); return false; }
                     const Node& A = c.nodes[n.a];
                     if (A.smooth && !A.numErr && std::isfinite(hBound)) {   // tracks the operand's derivative: |error| <= h/2 max|f''| + T h/6 max|f'''| (alternating recursion, see notes)
-                        Fn d1 = fn[n.a][i].deriv(), d2 = d1.deriv(), d3 = d2.deriv(); const double tol = (0.5 * hBound * d2.bound(c.t0, c.T) + Tspan * hBound / 6 * d3.bound(c.t0, c.T)) * 1.05 + 1e-7 * std::max(1.0, d1.bound(c.t0, c.T));
-                        if (t > c.t0 && std::abs(v - d1.eval(t)) > tol) { ctx.fail(id.str() + " differs from the operand's derivative " + pbt::str(d1.eval(t)) + " by more than the quadratic-fit bound " + pbt::str(tol)); return false; }
-                        if (t > c.t0) ctx.label("diff:accuracy-bound-checked");
+                        Fn d1 = fn[n.a][i].deriv(), d2 = d1.deriv(), d3 = d2.deriv(); const double tol = (0.5 * hBound * d2.bound(c.t0, Tall) + Tspan * hBound / 6 * d3.bound(c.t0, Tall)) * 1.05 + 1e-7 * std::max(1.0, d1.bound(c.t0, Tall));
+                        if (t > tStart && std::abs(v - d1.eval(t)) > tol) { ctx.fail(id.str() + " differs from the operand's derivative " + pbt::str(d1.eval(t)) + " by more than the quadratic-fit bound " + pbt::str(tol)); return false; }
+                        if (t > tStart) { ctx.label("diff:accuracy-bound-checked"); if (tStart > c.t0) ctx.label("study2:differentiate-accuracy-bound-checked"); }
                     }
                 }
             }
@@ -361,23 +370,25 @@ void runCase(const Case& c, pbt::Ctx& ctx, bool excl) {
         }
         lastCommitT = t;
     };
-    // initial condition of the stateful models = what initialize() is documented to do (sample the operand at t0)
+    // one study: the stateful models start from what initialize() is documented to do, then every returned state is judged
+    auto runStudy = [&](const std::vector<double>& reports) -> bool {
+    // initial condition of the stateful models = what initialize() is documented to do (sample the operand at the start time)
     {
         const State& s = integ->getState(); sys.realize(s, Stage::Acceleration);
         for (int k = 0; k < nn; ++k) { const T& v = M[k].getValue(s); for (int i = 0; i < N; ++i) val[k][i] = Tr<T>::get(v, i); }
         for (int k = 0; k < nn; ++k) { const Node& n = c.nodes[k]; if (!n.stateful) continue; std::vector<double> opv(N); for (int i = 0; i < N; ++i) opv[i] = val[n.a][i];
-            hist[k].push_back({c.t0, opv}); dst[k] = {c.t0, opv, std::vector<double>(N, 0.0), false}; extStored[k] = opv; }
+            hist[k].clear(); hist[k].push_back({tStart, opv}); dst[k] = {tStart, opv, std::vector<double>(N, 0.0), false}; extStored[k] = opv; }
     }
 
-    long guard = 0; bool over = false;
-    for (size_t ri = 0; ri < c.reports.size() && !over; ++ri) {
-        const double time = c.reports[ri];
+    long guard = 0; bool over = false; pendHave = false; pendT = tStart;
+    for (size_t ri = 0; ri < reports.size() && !over; ++ri) {
+        const double time = reports[ri];
         for (;;) {
-            if (++guard > 300000) { ctx.reject("too-many-steps"); return; }
+            if (++guard > 300000) { ctx.reject("too-many-steps"); return false; }
             Integrator::SuccessfulStepStatus st;
-            try { st = ts.stepTo(time); }
-            catch (const std::exception& e) { std::string what = e.what(); if (cp && what.find("CPodes::step() returned an error") != std::string::npos) { ctx.reject("cpodes-step-failed"); return; }
-                ctx.fail(std::string(integName(c.integ)) + ": TimeStepper::stepTo(" + pbt::str(time) + ") threw: " + what.substr(0, 400)); return; }
+            try { st = ts->stepTo(time); }
+            catch (const std::exception& e) { std::string what = e.what(); if (cp && what.find("CPodes::step() returned an error") != std::string::npos) { ctx.reject("cpodes-step-failed"); return false; }
+                ctx.fail(std::string(integName(integKind)) + ": TimeStepper::stepTo(" + pbt::str(time) + ") threw: " + what.substr(0, 400)); return false; }
             const State& s = integ->getState(); const double t = s.getTime(); const bool interp = integ->isStateInterpolated();
             // a Variable change time reached: the handler has run (ReachedScheduledEvent is returned after handling)
             while (nextVar < c.varTimes.size() && setter && st == Integrator::ReachedScheduledEvent && t == c.varTimes[nextVar]) {
@@ -386,14 +397,37 @@ void runCase(const Case& c, pbt::Ctx& ctx, bool excl) {
             }
             if (ctx.wantDesc && guard < 200) ctx.desc << "  stepTo(" << pbt::str(time) << ") -> status " << (int)st << " t=" << pbt::str(t) << " ta=" << pbt::str(integ->getAdvancedTime()) << (interp ? " interpolated" : "") << "\n";
             if (!interp) hMaxSeen = std::max(hMaxSeen, t - pendT);
-            if (std::isfinite(hBound) && !interp && t - pendT > hBound * 1.0000001) { ctx.fail(std::string(integName(c.integ)) + ": internal step " + pbt::str(t - pendT) + " exceeds the step bound in force " + pbt::str(hBound)); return; }
+            if (std::isfinite(hBound) && !interp && t - pendT > hBound * 1.0000001) { ctx.fail(std::string(integName(integKind)) + ": internal step " + pbt::str(t - pendT) + " exceeds the step bound in force " + pbt::str(hBound)); return false; }
             if (pendHave && integ->getAdvancedTime() > pendT) { commit(); pendHave = false; }     // a step was started from the pending boundary state
-            if (!judgeState(s, interp)) { if (ctx.failed) ctx.msg = std::string(integName(c.integ)) + " acc=" + pbt::str(c.acc) + ": " + ctx.msg; return; }
+            if (!judgeState(s, interp)) { if (ctx.failed) ctx.msg = std::string(integName(integKind)) + (tStart > c.t0 ? " [continued study]" : "") + " acc=" + pbt::str(c.acc) + ": " + ctx.msg; return false; }
             if (!interp) { pendHave = true; pendT = t; pendVal = val; }
             started = true; tPrev = t;
             if (integ->isSimulationOver() || st == Integrator::EndOfSimulation) { over = true; break; }
             if (t >= time && st == Integrator::ReachedReportTime) break;
         }
+    }
+    return true;
+    };
+    if (!runStudy(c.reports)) return;
+    // ---- continued study: a NEW integrator and TimeStepper are initialized from a State that DESCENDS from the first run (a copy of its
+    // final State, edited): initialize() must re-sample every stateful measure exactly as documented for a fresh study -- Integrate
+    // restarts from its initial-condition measure, extremes and Delay restart from the operand's current value, the numerical
+    // Differentiate starts with derivative 0 and a FIRST-order estimate on its first step -- and all nodes are judged as before.
+    if (c.study2 && !integ->isSimulationOver()) {
+        State s2 = integ->getState();
+        // writing the time (to the same value) drops the Time-stage caches of the copy: without it an Integrate used as the initial
+        // condition of another Integrate would be read from its stale value cache (known finding integrate-value-cache-stale-same-time)
+        s2.updTime() = s2.getTime();
+        if (c.edit & 1u) { Vector& z = s2.updZ(sys.subsystem()); for (int i = 0; i < z.size(); ++i) z[i] *= 0.5; s2.updU(sys.subsystem())[0] += 0.25; ctx.label("study2:edited-system-state"); }
+        if ((c.edit & 2u) && !vars.empty()) { for (size_t v = 0; v < vars.size(); ++v) { double cc[3]; for (int i = 0; i < 3; ++i) { cc[i] = 0.75 - 0.5 * i + 0.25 * (double)v; varVal[varNode[v]][i] = cc[i]; } vars[v].setValue(s2, Tr<T>::make(cc)); }
+            variableEdited = true; ctx.label("study2:edited-variable"); }
+        const double T1 = s2.getTime();
+        if (!startStudy(c.integ2, s2)) return;
+        rebuild(T1, true);
+        ctx.label("study:continued-from-descended-state"); if (c.integ2 != c.integ) ctx.label("study2:other-integrator");
+        for (auto& n : c.nodes) { if ((n.kind == KDiffA || n.kind == KDiffN) && n.approxInUse) ctx.label("study2:differentiate-approx"); if (n.kind == KInteg) ctx.label("study2:integrate"); if (n.kind == KDelay) ctx.label("study2:delay"); if (n.kind >= KMin && n.kind <= KMaxAbs) ctx.label("study2:extreme"); }
+        std::vector<double> rep2; rep2.push_back(T1 + 0.4 * c.T2); rep2.push_back(T1 + c.T2);
+        if (!runStudy(rep2)) return;
     }
     (void)started; (void)tPrev;
     { static const bool calib = getenv("C23_CALIB") != nullptr; if (calib) { bool any = false; for (auto& n : c.nodes) if (n.numErr) any = true; if (any) fprintf(stderr, "CAL %s %g\n", integName(c.integ), worstInt); } }
@@ -529,7 +563,7 @@ pbt::Config config() {
         ctx.check(worst == 0, "two identical Integrate measures report different values at the same state: " + pbt::str(ta) + " vs " + pbt::str(tb) + " at t=" + pbt::str(tt));
     }});
     c.requiredLabels = {"type:Real", "type:Vec3", "node:Integrate", "node:Differentiate(approx)", "node:Minimum", "node:Maximum", "node:MinAbs", "node:MaxAbs", "node:Delay", "node:Variable", "node:Sinusoid", "node:Plus", "node:Minus", "node:Scale",
-                        "hit:variable-changed", "delay:interpolation-bound-checked", "delay:before-start", "diff:accuracy-bound-checked"};
+                        "study:continued-from-descended-state", "study2:differentiate-approx", "study2:differentiate-accuracy-bound-checked", "study2:integrate", "study2:delay", "study2:extreme", "study2:edited-variable", "hit:variable-changed", "delay:interpolation-bound-checked", "delay:before-start", "diff:accuracy-bound-checked"};
     return c;
 }
 } // namespace
